@@ -162,6 +162,12 @@ pub fn search_dir_for_multi_volume_archive(any_part: &Path) -> Vec<PathBuf> {
         let any_ext = captures.get(2).unwrap().as_str();
         let mut multi_vols = Vec::new();
         if let Some(parent) = any_part.parent() {
+            // a bare file name has the empty path as parent: that is the current directory
+            let parent = if parent.as_os_str().is_empty() {
+                Path::new(".")
+            } else {
+                parent
+            };
             if let Ok(entries) = std::fs::read_dir(parent) {
                 for entry in entries.flatten() {
                     if let Some(file_name) = entry.file_name().to_str() {
